@@ -1581,7 +1581,7 @@ ENC = {
     "C01": dict(fam="c01", quick=(14, 0), thorough=tuple(cases.OPTS), level=(0, 0),
                 rule="every instance of every integer entry of the reference opcode table whose operands are registers (all widths, r8-r15, "
                      "ah/ch/dh/bh where encodable, all synonym mnemonics), the no-operand instructions and nop..nop11"),
-    "C02": dict(fam="c02", quick=(14, 2), thorough=(14, 2, 0, 12), level=(0, 2),
+    "C02": dict(fam="c02", quick=(14, 2), thorough=(14, 0), level=(0, 2),
                 rule="every entry with a memory-capable operand over base x index x scale x displacement shapes (key registers none/rax/rsp/rbp/r12/"
                      "r13/r15, both address sizes, disp8/disp32 boundaries of both signs; thorough: all 17x16x4x13x2 shapes for mov/lea/paddb/vaddpd), "
                      "with and without size keyword and in both factor orders"),
@@ -1630,10 +1630,12 @@ def check_enc(cx):
     decmap = dict(zip(codes, dec))
     # the reference decoder itself against binutils' objdump (validation of the spec, not of the property)
     od = x86ref.objdump([bytes.fromhex(c) for c in codes])
+    rc1, dec1, _ = alv.run_driver(alv.driver_path(), ["Q1 %s" % c for c in codes])
+    first = dict(zip(codes, dec1))
     dis = collections.Counter()
     disex = {}
     for c, o in zip(codes, od):
-        r = x86ref.spec_vs_objdump(decmap[c], o)
+        r = x86ref.spec_vs_objdump(first.get(c, "?"), o)
         if r:
             k = re.sub(r"[0-9a-fx-]{3,}", "N", r.split(" (")[0])[:50]
             dis[k] += 1
@@ -1702,6 +1704,213 @@ ENC_THEOREMS = {}
 
 
 
+# ------------------------------------------------------------------------------------------
+# C17 — OS resource failures
+# ------------------------------------------------------------------------------------------
+
+WRAPPED = ["malloc", "mmap", "mremap", "munmap", "open", "fstat", "read", "close", "fopen", "fwrite", "fclose"]
+OS_HARMLESS = {"free", "fprintf", "printf", "puts", "putchar", "perror", "stderr", "stdout", "memcpy", "memset", "strcasecmp", "strchr", "strcmp",
+               "strlen", "strncpy", "strstr", "strtok_r", "strtoul", "tolower", "__stack_chk_fail", "_GLOBAL_OFFSET_TABLE_", "__errno_location",
+               "fputc", "fputs", "putc", "snprintf", "memcmp", "strncmp", "__ctype_tolower_loc", "__ctype_b_loc"}
+FAULT_SCENARIOS = ["create_int", "create_ext", "growth", "file", "file_count", "binfile"]
+FILE_TEXT = b"mov rcx, 0x5\nadd rcx, rdx\nnop\nret\n"
+P1_TEXT = b"mov rax, 0x1122334455667788\nadd rax, rcx\nret\n"
+P3_TEXT = b"xor eax, eax\nret\n"
+BIG_TEXT = b"mov rdx, 0x1122334455667788\n" * 2600
+
+
+def os_symbols():
+    """undefined symbols of the library objects (T6)"""
+    syms = set()
+    d = os.path.join(alv.CACHE, "nm")
+    os.makedirs(d, exist_ok=True)
+    own = set()
+    for f in alv.lib_c_files():
+        o = os.path.join(d, os.path.basename(f) + ".o")
+        p = subprocess.run(["gcc", "-w", "-std=gnu99", "-O1", "-c", "-I" + os.path.join(alv.REPO, "src"), "-I" + alv.REPO, f, "-o", o],
+                           stdout=subprocess.PIPE, stderr=subprocess.PIPE)
+        if p.returncode != 0:
+            raise alv.BuildError(p.stderr.decode()[-2000:])
+        out = subprocess.run(["nm", o], stdout=subprocess.PIPE).stdout.decode()
+        for ln in out.split("\n"):
+            t = ln.split()
+            if len(t) == 2 and t[0] == "U":
+                syms.add(t[1])
+            elif len(t) == 3 and t[1] in "TDBRCdbr":
+                own.add(t[2])
+    return syms - own
+
+
+def run_fault(exe, sc, kind, k, tmpdir):
+    p = subprocess.run([exe, sc, kind, str(k), tmpdir], stdout=subprocess.PIPE, stderr=subprocess.PIPE, timeout=120)
+    out = p.stdout.decode("latin1")
+    kv = {}
+    for ln in out.split("\n"):
+        for tok in ln.split():
+            if "=" in tok:
+                a, b = tok.split("=", 1)
+                kv[a] = b
+    return p.returncode, "END" in out.split("\n"), kv, p.stderr.decode("latin1")[-600:]
+
+
+def model_fault(sc, kind, k, counts):
+    """what the Lean model (AL.Impl.Faults + the API model) says the observations are for this schedule"""
+    drv = alv.driver_path()
+    def run(ops):
+        rc, out, err = alv.run_driver(drv, ops)
+        return out
+    exp = {}
+    ext = sc == "create_ext"
+    malloc_ok = not (kind == "malloc" and k == 1)
+    mmap_ok = not (kind == "mmap" and k == 1)
+    c = run(["FC %d %d %d" % (ext, malloc_ok, mmap_ok)])[0]
+    exp["create"] = c
+    if c == "null":
+        return exp
+    # the instance: a refused k-th growth is a caller buffer of the size reached after k-1 growths
+    if sc == "growth" and kind == "mremap":
+        inst = "N 0 %d 00" % (6020 + 6000 * (k - 1))
+    elif ext:
+        inst = "N 0 4096 cc"
+    else:
+        inst = "N 0 -"
+    ops = [inst, "A 0 %s" % cases.hexs(P1_TEXT), "D 0 0 14"]
+    if sc == "growth":
+        ops += ["A 0 %s" % cases.hexs(BIG_TEXT)]
+    elif sc in ("file", "file_count"):
+        reads = "-"
+        if kind == "read" and k == 1:
+            reads = "e"
+        if kind == "shortread":
+            reads = ",".join(["3"] * 40)
+        fr = run(["FR %d %d %d %s %s" % (not (kind == "open" and k == 1), not (kind == "fstat" and k == 1),
+                                          not (kind == "malloc" and k == 2), reads, cases.hexs(FILE_TEXT))])[0]
+        exp["file_null"] = fr == "null"
+        if fr == "null":
+            ops += ["G 0"]
+        elif sc == "file":
+            ops += ["A 0 %s" % fr]
+        else:
+            ops += ["C 0 4 %s 1" % fr]
+    elif sc == "binfile":
+        ops += ["FB 0 %d %d %d" % (not (kind == "fopen" and k == 1), 7 if (kind == "fwrite" and k == 1) else 14, not (kind == "fclose" and k == 1))]
+    ops += ["G 0", "A 0 %s" % cases.hexs(P3_TEXT), "F 0"]
+    out = run(ops)
+    exp["asm1"], exp["off1"] = out[1].split()[0], out[1].split()[1]
+    exp["code1"] = out[2]
+    step = out[3].split()
+    if sc == "growth":
+        exp["asm2"], exp["off2"] = step[0], step[1]
+    elif sc in ("file", "file_count"):
+        if exp["file_null"]:
+            exp["asm2"], exp["off2"] = "1", step[0]
+        else:
+            exp["asm2"], exp["off2"] = step[0], step[1]
+            if sc == "file_count":
+                exp["count"] = step[2]
+    elif sc == "binfile":
+        exp["bin"] = step[0]
+        exp["file_complete"] = "1" if step[1] == exp["code1"] else "0"
+    k3 = 4 if sc in ("growth", "file", "file_count", "binfile") else 3
+    exp["asm3"], exp["off3"] = out[k3 + 1].split()[0], out[k3 + 1].split()[1]
+    exp["destroy"] = "0"
+    return exp
+
+
+def check_C17(cx):
+    thms = ["AL.Properties.C17." + t for t in ["create_reports", "refused_growth_fails", "failed_call_keeps_code", "readFile_fails",
+            "file_failure_reports", "read_error_fails", "bin_file_success_iff", "bin_file_complete"]] + \
+           ["AL.Properties.C08.growth_keeps_code", "AL.Lemmas.assembleAll_post"]
+    info = stage_proofs(cx, "AL.Properties.C17", thms)
+    if not info:
+        return finish(cx, "")
+    # T6: the OS interface of the library objects
+    try:
+        syms = os_symbols()
+    except alv.BuildError as e:
+        cx.oblige("T6 undefined symbols of the library objects", False, str(e))
+        return finish(cx, "")
+    unknown = sorted(syms - set(WRAPPED) - OS_HARMLESS)
+    cx.oblige("T6 every libc symbol the library objects reference is either wrapped by the fault harness or audited as not failing (%d symbols)" % len(syms),
+              not unknown, json.dumps(unknown))
+    wrap = "-Wl," + ",".join("--wrap=" + w for w in WRAPPED)
+    impl = build_impl(cx, name="faultdrv", flavour="plain", extra_flags=(wrap,))
+    if not impl:
+        return finish(cx, "")
+    tmpdir = os.path.join(alv.CACHE, "faulttmp")
+    os.makedirs(tmpdir, exist_ok=True)
+    nsched = nfired = 0
+    fired_by_kind = collections.Counter()
+    samples = []
+    for sc in FAULT_SCENARIOS:
+        rc, ended, base, err = run_fault(impl, sc, "none", 0, tmpdir)
+        if rc != 0 or not ended:
+            cx.violations.append({"kind": "crash", "scenario": sc, "fault": "none", "rc": rc, "stderr": err, "what": "scenario crashes without any fault"})
+            continue
+        counts = {w: int(base.get(w, "0")) for w in WRAPPED}
+        scheds = [("none", 0)] + [(w, k) for w in WRAPPED for k in range(1, counts[w] + 1)]
+        if sc in ("file", "file_count"):
+            scheds.append(("shortread", 1))
+        for kind, k in scheds:
+            nsched += 1
+            rc, ended, kv, err = run_fault(impl, sc, kind, k, tmpdir)
+            tag = {"scenario": sc, "fault": kind, "occurrence": k}
+            if rc != 0 or not ended:
+                cx.violations.append({"kind": "crash", **tag, "rc": rc, "stderr": err,
+                                      "what": "the process does not survive the refused OS call (signal or abnormal exit)"})
+                continue
+            fired = int(kv.get("fired", "0"))
+            if kind not in ("none", "shortread"):
+                nfired += fired
+                fired_by_kind[kind] += fired
+                if fired != 1:
+                    cx.broken.append({"obligation": "fault schedule fired", **tag, "fired": fired})
+            # the property, directly on the observations
+            bad = None
+            if kv.get("create") == "null":
+                if not ((kind == "malloc" and k == 1) or kind == "mmap"):
+                    bad = "creation fails although neither its malloc nor its mmap was refused"
+            else:
+                if kv.get("earlier_intact") != "1":
+                    bad = "code assembled earlier is not intact / retrievable after the failed call"
+                elif kv.get("destroy") != "0":
+                    bad = "the instance cannot be destroyed"
+                elif kv.get("asm3") != "0" or kv.get("delta3") != "3":
+                    bad = "the instance is not usable after the failed call"
+                elif sc == "binfile" and kv.get("bin") == "0" and kv.get("file_complete") != "1":
+                    bad = "asm_create_bin_file reports success although the complete code did not reach the file"
+                elif kind in ("mremap", "open", "fstat", "read") and kv.get("asm2") != "1":
+                    bad = "the refused call is not reported by the documented return value"
+                elif kind == "malloc" and k == 2 and kv.get("asm2") != "1":
+                    bad = "the refused allocation is not reported by the documented return value"
+                elif kind in ("fopen", "fwrite", "fclose") and kv.get("bin") != "1":
+                    bad = "the refused file operation is not reported by asm_create_bin_file"
+                elif "asm2" in kv and kv["asm2"] == "1" and kv.get("off2") != kv.get("off1"):
+                    bad = "the failed call changed the offset"
+            if bad:
+                cx.violations.append({"kind": "fault", **tag, "observed": kv, "what": bad})
+            # correspondence with the model
+            exp = model_fault(sc, kind, k, counts)
+            diff = {key: (exp[key], kv.get(key)) for key in exp if key not in ("file_null",) and str(exp[key]) != str(kv.get(key))}
+            if diff:
+                cx.broken.append({"correspondence": "C17 fault schedule", **tag, "model_vs_implementation": diff})
+            if len(samples) < 4 and kind != "none":
+                samples.append([sc, kind, k, {a: kv[a] for a in list(kv)[:8]}])
+    cx.oblige("every schedule's injected fault fired exactly once and the model predicts every observation (%d schedules)" % nsched,
+              not any("correspondence" in b or b.get("obligation") == "fault schedule fired" for b in cx.broken), json.dumps(cx.broken[:3]))
+    cx.count(nsched, [(s,) for s in FAULT_SCENARIOS])
+    cx.nontrivial.update(range(nsched))
+    cx.cov["samples"] = samples
+    cx.dist = {"scenarios": FAULT_SCENARIOS, "schedules": nsched, "faults_fired": nfired, "fired_by_kind": dict(fired_by_kind)}
+    cx.assumptions.append("the kernel's own behaviour on a refused call (errno, no side effect) is as documented; combinations of several faults follow "
+                          "from the single-fault cases only through the model's theorems, they are not injected")
+    return finish(cx, "every single failure of every malloc/mmap/mremap/munmap/open/fstat/read/close/fopen/fwrite/fclose call the library objects make in "
+                  "six scenarios (create internal/external, long assembly with four growths, file assembly, counting from a file, binary output), plus "
+                  "all-short reads; one process per schedule (a crash is an outcome); observations checked against the property directly and against "
+                  "the Lean model's prediction; distinct = distinct schedules", exhaustive=True)
+
+
+
 def history_around(ops, idx):
     """the ops of the history that contains op number idx (a history starts at its first N op
     after an F op or at the beginning)"""
@@ -1714,7 +1923,7 @@ def history_around(ops, idx):
     return ops[start:end + 1]
 
 
-CHECKS = {"C12": check_C12, "C07": check_C07, "C06": check_C06, "C13": check_C13, "C14": check_C14, "C08": check_C08, "C15": check_C15, "C16": check_C16, "C10": check_C10, "C09": check_C09, "C11": check_C11, "C01": check_enc, "C02": check_enc, "C03": check_enc, "C04": check_enc, "C05": check_enc}
+CHECKS = {"C12": check_C12, "C07": check_C07, "C06": check_C06, "C13": check_C13, "C14": check_C14, "C08": check_C08, "C15": check_C15, "C16": check_C16, "C10": check_C10, "C09": check_C09, "C11": check_C11, "C01": check_enc, "C02": check_enc, "C03": check_enc, "C04": check_enc, "C05": check_enc, "C17": check_C17}
 
 
 def run_check(prop, tier, seed):
